@@ -26,6 +26,31 @@ type c01Case struct {
 	Var    int    `json:"var,omitempty"`     // selfalias: 0 reversed, 1 shifted right behind a fresh coordinate, 2 shifted left
 }
 
+// JSON form of a case: an IGC text that is not valid UTF-8 is stored as bytes (see splitText).
+type c01Wire c01Case
+
+func (cs c01Case) MarshalJSON() ([]byte, error) {
+	w := struct {
+		c01Wire
+		TextBytes []byte `json:"text_bytes,omitempty"`
+	}{c01Wire: c01Wire(cs)}
+	w.Text, w.TextBytes = splitText(cs.Text)
+	return json.Marshal(w)
+}
+
+func (cs *c01Case) UnmarshalJSON(b []byte) error {
+	var w struct {
+		c01Wire
+		TextBytes []byte `json:"text_bytes"`
+	}
+	if err := json.Unmarshal(b, &w); err != nil {
+		return err
+	}
+	*cs = c01Case(w.c01Wire)
+	cs.Text = joinText(w.Text, w.TextBytes)
+	return nil
+}
+
 func init() {
 	engine.Register(&engine.Check{
 		ID: "C01", Level: "exploration",
